@@ -30,6 +30,15 @@ def _ret(value):
   return True
 
 
+def pick(table, idx):
+  """table[idx] with the index decided by explicit branching, so that the result is the CONCRETE
+  table element (CrossHair otherwise builds a symbolic selection; for floats that means FP queries)."""
+  for i in range(len(table)):
+    if idx == i:
+      return table[i]
+  raise IndexError(idx)
+
+
 class H(object):
   """One engine-X obligation: a PEP316 harness function analysed by CrossHair."""
   kind = 'X'
